@@ -20,3 +20,6 @@ for j in mod.jobs(tier):
     if ex: print('   exc', ex)
     vd = [r.val_detail for r in res if r.validated not in (True,None)][:3]
     if vd: print('   valdetail', vd)
+
+if core.FORK_SITES:
+    for k,v in sorted(core.FORK_SITES.items(), key=lambda kv:-kv[1])[:15]: print('  fork', v, k)
